@@ -92,7 +92,16 @@ Retry:
 			}
 			pargs[j] = s.Eval(v, d2)
 		}
-		result = addNumbers(tp.Apply(s, pargs, d2), delta)
+		cur := tp.Apply(s, pargs, d2)
+		if vs, ok := cur.(slip.Values); ok {
+			// Only the primary value of a place such as gethash is the
+			// number to change.
+			cur = nil
+			if 0 < len(vs) {
+				cur = vs[0]
+			}
+		}
+		result = addNumbers(cur, delta)
 		tp.Place(s, pargs, result)
 	default:
 		slip.TypePanic(s, depth, "decf placer", tp, "placer", "symbol")
